@@ -3,3 +3,4 @@ import CbOblig.C02
 import CbOblig.C20
 import CbOblig.C13
 import CbOblig.C11
+import CbOblig.C15
